@@ -198,6 +198,15 @@ def adEval (c : Ctx α) : Expr α → Except Err (Val α)
 def centralDiff (f : α → α) (x eps : α) : α :=
   (f (x + eps) - f (x - eps)) / (((2 : Nat) : α) * eps)
 
+/-- `finite_differentiators._calculate_finite_derivatives` for a one-argument user function `f` applied to an Atom `(v, d)`:
+    value `f v`, derivative = two-sided difference quotient of `f` at `v` times the inner derivative -/
+def userCall1Value (f : α → α) (v _d _eps : α) : α := f v
+def userCall1Diff (f : α → α) (v d eps : α) : α := centralDiff f v eps * d
+
+/-- two arguments: the total derivative, each partial by a two-sided difference quotient in its own argument -/
+def userCall2Diff (f : α → α → α) (v1 d1 eps1 v2 d2 eps2 : α) : α :=
+  centralDiff (fun y => f y v2) v1 eps1 * d1 + centralDiff (fun y => f v1 y) v2 eps2 * d2
+
 /-- `_adapt_equation_for_aldi` appends `+ Atom.zero(shape)` to every equation -/
 def adEquation (c : Ctx α) (e : Expr α) : Except Err (Val α) := do
   binop .add (← adEval c e) (.atom ((0 : Nat) : α) ((0 : Nat) : α))
@@ -342,5 +351,33 @@ def stackedAux (spots : List Token) (cols : List Int) (numEqs : Nat) : Nat → N
 
 def stackedMap (spots : List Token) (cols : List Int) (eqs : List (List Token)) : List Entry :=
   stackedAux spots cols eqs.length 0 0 eqs
+
+/-! ### terminal condition bookkeeping (`fords/terminators.py`) -/
+
+/-- one terminal column: the kept quantities with their running index -/
+def termForCol (keep : Nat → Int → Bool) (c : Int) : Nat → List Nat → List (Nat × Token)
+  | _, [] => []
+  | inx, q :: qs =>
+    if keep q c then (inx, (q, c)) :: termForCol keep c (inx + 1) qs else termForCol keep c (inx + 1) qs
+
+/-- `enumerate(product(terminal_columns, curr_xi_qids))` filtered: column-major running index -/
+def termSpotsAux (qids : List Nat) (keep : Nat → Int → Bool) : Nat → List Int → List (Nat × Token)
+  | _, [] => []
+  | inx, c :: cs => termForCol keep c inx qids ++ termSpotsAux qids keep (inx + qids.length) cs
+
+/-- `Terminator.__init__`: `(terminal_column_index, terminal_wrt_spots)`; a spot `(qid, column)` is kept when
+    `column ≤ last_simulation + max shift of the quantity` -/
+def terminalSpots (termCols : List Int) (qids : List Nat) (maxShift : Nat → Int) (last : Int) : List (Nat × Token) :=
+  termSpotsAux qids (fun q c => decide (c ≤ last + maxShift q)) 0 termCols
+
+/-- `create_terminal_jacobian_map`: pairs `(lhs column, rhs column)`: the `r`-th entry of the terminal-initial vector
+    (`Token(qid, last_simulation + shift)` of the solution's transition vector) that is a wrt-spot at position `l` -/
+def terminalJacMapAux (wrtSpots : List Token) : Nat → List Token → List (Nat × Nat)
+  | _, [] => []
+  | r, t :: ts =>
+    if wrtSpots.contains t then (wrtSpots.idxOf t, r) :: terminalJacMapAux wrtSpots (r + 1) ts
+    else terminalJacMapAux wrtSpots (r + 1) ts
+
+def terminalJacMap (wrtSpots terminit : List Token) : List (Nat × Nat) := terminalJacMapAux wrtSpots 0 terminit
 
 end IrisVerif.AD
